@@ -16,7 +16,7 @@ LEVEL_TEXT = (
     "split, complex data writing both parts; the transformation dispatch covers exactly the documented modes."
 )
 LEVEL_NOTE = "Out of reach statically: the round trip itself, which goes through meshio's writers/readers and the file system."
-EXPLANATION = "rules TAG-PROVENANCE, MESH-ARRAYS, DATA-PLUMBING, TRANSFORM-MODES"
+EXPLANATION = "rules TAG-PROVENANCE, MESH-ARRAYS, DATA-PLUMBING, TRANSFORM-MODES, TRANSFORM-FORMULAS"
 ASSUMPTIONS = ["meshio stores and returns cell_data / point_data arrays unchanged under the keys used"]
 
 IO = "bempp_cl/api/grid/io.py"
@@ -142,3 +142,114 @@ def run(ctx):
     none_first = isinstance(tf.body[1] if isinstance(tf.body[0], ast.Expr) else tf.body[0], ast.If) and "modeisNone" in unparse(tf.body[1] if isinstance(tf.body[0], ast.Expr) else tf.body[0]).replace(" ", "")
     r4.check(lits == {"real", "imag", "abs", "abs_squared", "log_abs"} and has_else_call and none_first, "_transform_array", IO, "_transform_array", tf.lineno,
              "transformation modes %s" % sorted(lits), "dispatch covers %s (callable fallback: %s, None passthrough: %s)" % (sorted(lits), has_else_call, none_first))
+    transform_formulas(ctx)
+
+
+# ---------------------------------------------------------------- the transformations as formulas
+
+
+class _Q:
+    """A real non-negative quantity P^(1/2^k) (k = 0: plain value, possibly complex), or log of such a quantity."""
+
+    def __init__(self, p, k=0, log=False):
+        self.p, self.k, self.log = p, k, log
+
+
+def _tf_eval(node, comps, aname):
+    """Evaluate a numpy expression over the symbolic complex vector `aname` = comps (list of alg.V) componentwise.
+    Returns a list of _Q (one per remaining component)."""
+    from ..alg import V, vsum
+
+    def ev(n):
+        if isinstance(n, ast.Name) and n.id == aname:
+            return [_Q(c) for c in comps]
+        if isinstance(n, ast.Constant) and isinstance(n.value, (int, float)):
+            return n.value
+        if isinstance(n, ast.BinOp) and isinstance(n.op, ast.Pow) and isinstance(n.right, ast.Constant) and n.right.value == 2:
+            xs = ev(n.left)
+            out = []
+            for q in xs:
+                if q.log:
+                    raise AnalysisError("_transform_array: square of a logarithm")
+                out.append(_Q(q.p * q.p) if q.k == 0 else _Q(q.p, q.k - 1))
+            return out
+        if isinstance(n, ast.BinOp) and isinstance(n.op, ast.Mult):
+            a, b = ev(n.left), ev(n.right)
+            if isinstance(a, list) and isinstance(b, list) and len(a) == len(b) and all(x.k == 0 and y.k == 0 and not x.log and not y.log for x, y in zip(a, b)):
+                return [_Q(x.p * y.p) for x, y in zip(a, b)]
+            raise AnalysisError("_transform_array: unsupported product")
+        if isinstance(n, ast.Call):
+            f = unparse(n.func)
+            short = f.split(".")[-1]
+            kw = {k.arg: k.value for k in n.keywords}
+            if isinstance(n.func, ast.Attribute) and short in ("conj", "conjugate") and not n.args:
+                return [_Q(q.p.conj(), q.k, q.log) for q in ev(n.func.value)]
+            xs = ev(n.args[0]) if n.args else None
+            if short in ("conj", "conjugate") and xs is not None:
+                return [_Q(q.p.conj(), q.k, q.log) for q in xs]
+            if short in ("abs", "absolute"):
+                return [_Q(q.p.conj() * q.p, 1) if q.k == 0 else q for q in xs]
+            if short == "real":
+                return [_Q((q.p + q.p.conj()) * V.const(1) / V.const(2)) for q in xs]
+            if short == "imag":
+                from ..alg import I
+
+                return [_Q((q.p - q.p.conj()) / (V.const(2) * I)) for q in xs]
+            if short == "sqrt":
+                return [_Q(q.p, q.k + 1) for q in xs]
+            if short == "log":
+                return [_Q(q.p, q.k, True) for q in xs]
+            if short == "sum" and "axis" in kw and isinstance(kw["axis"], ast.Constant) and kw["axis"].value == 0:
+                if not all(q.k == 0 and not q.log for q in xs):
+                    raise AnalysisError("_transform_array: sum of roots")
+                return [_Q(vsum(q.p for q in xs))]
+            if f.endswith("linalg.norm") and "axis" in kw and isinstance(kw["axis"], ast.Constant) and kw["axis"].value == 0:
+                return [_Q(vsum(q.p.conj() * q.p for q in xs), 1)]
+        raise AnalysisError("_transform_array: expression outside the analysed subset: %s" % unparse(n)[:70])
+
+    return ev(node)
+
+
+def _q_equal(a, b):
+    """P^(1/2^k) == R^(1/2^l) for non-negative real P, R (compare after raising to the common power)."""
+    if a.log != b.log:
+        return False
+    p, r, k, l = a.p, b.p, a.k, b.k
+    while k < l:
+        p, k = p * p, k + 1
+    while l < k:
+        r, l = r * r, l + 1
+    return p.eq(r)
+
+
+def transform_formulas(ctx):
+    from ..alg import I, V, vsum
+
+    m = ctx.repo.mod(IO)
+    tf = m.fn("_transform_array")
+    r = ctx.rule("TRANSFORM-FORMULAS", "_transform_array: real / imag act componentwise; abs = sqrt(sum_c |a_c|^2), abs_squared = sum_c |a_c|^2, log_abs = log of abs, for complex vector-valued data", 5)
+    a, modep = arg_names(tf)[0], arg_names(tf)[1]
+    defs = roles.Defs(tf)
+    S = roles.stores(tf.body, defs, lv=False)
+    comps = [V.atom("x%d" % c) + I * V.atom("y%d" % c) for c in range(3)]
+    norm2 = vsum(V.atom("x%d" % c) * V.atom("x%d" % c) + V.atom("y%d" % c) * V.atom("y%d" % c) for c in range(3))
+    want = {
+        "real": [_Q(V.atom("x%d" % c)) for c in range(3)], "imag": [_Q(V.atom("y%d" % c)) for c in range(3)],
+        "abs": [_Q(norm2, 1)], "abs_squared": [_Q(norm2)], "log_abs": [_Q(norm2, 1, True)],
+    }
+    rets = {s.value for s in S if s.op == "return"}
+    for mode, w in want.items():
+        lit = "(%s Eq '%s')" % tuple(sorted([modep, "'%s'" % mode])) if False else None
+        cand = [s for s in S if s.op == "=" and isinstance(s.tnode, ast.Name) and s.guards and s.guards[-1][1] is True and ("'%s'" % mode) in s.guards[-1][0] and modep in s.guards[-1][0]
+                and all(not g[1] for g in s.guards[:-1])]
+        ok, why = False, "no assignment under `%s == '%s'`" % (modep, mode)
+        if len(cand) == 1:
+            try:
+                got = _tf_eval(cand[0].vnode, comps, a)
+                ok = len(got) == len(w) and all(_q_equal(g, x) for g, x in zip(got, w))
+                why = "`%s` is not %s for complex vector-valued data" % (unparse(cand[0].vnode)[:90], {"real": "the real part", "imag": "the imaginary part", "abs": "sqrt(sum_c |a_c|^2)", "abs_squared": "sum_c |a_c|^2", "log_abs": "log sqrt(sum_c |a_c|^2)"}[mode])
+            except AnalysisError as e:
+                raise
+        r.check(ok, "mode %s" % mode, IO, tf.name, cand[0].node.lineno if cand else tf.lineno, "transformation %s" % mode, why)
+    bad = ast.parse("_np.sqrt(_np.abs(_np.sum(a ** 2, axis=0, keepdims=True)))", mode="eval").body
+    r.must_fire(not _q_equal(_tf_eval(bad, comps, "a")[0], want["abs"][0]), "|sum a_c^2| instead of sum |a_c|^2")
